@@ -26,6 +26,9 @@
   whole records (interleaving of classes in the file), the content of CDS / domain / module qualifiers.
 -/
 import ASV.Proofs.SerialRecord
+import ASV.Proofs.SerialPre
+import ASV.Proofs.SerialQual
+import ASV.Proofs.SerialDom
 namespace ASV.C10
 open ASV ASV.Serial
 
@@ -234,5 +237,144 @@ theorem kf_witness_not_in_scope : ¬ rKF.Scope := by
   have h1 := (List.pairwise_cons.1 hs).1 (mkCand (.simple ⟨0, 300, .fwd⟩) "interleaved" [0, 1, 2] (some 300)) (by simp [rKF])
   revert h1
   decide
+
+/-! ### the location of a precursor peptide (written as leader / core / tail, rebuilt from them) -/
+
+/-- `Prepeptide.to_biopython` cuts the gene's location into leader, core and tail (C09's
+    `prepeptideSections`), writes the core's location and the other two as text;
+    `Prepeptide.from_biopython` parses them and combines the three (`_combine_sections`, fixes/D107).
+    For every gene location (any number of exons, either strand, origin-spanning or not) and every
+    leader / tail length that leaves a core: writing succeeds, reading succeeds, and the rebuilt
+    location has exactly the gene's translated bases, in transcription order. -/
+theorem prepeptide_location_roundtrip (l : Loc) (hwf : ProtDna.geneWF l = true) (ld tl : Nat)
+    (h : (ld : Int) + tl < l.len / 3) :
+    ∃ w, preWrite l ld tl = .ok w ∧ ∃ r, preRead w = some r ∧
+      ProtDna.bases r = (ProtDna.bases l).take (3 * (l.len / 3).toNat) :=
+  preRead_preWrite l hwf ld tl h
+
+/-- comparing locations "whatever the cut into parts" loses no base: the normal form used by the
+    harness for the known finding KF-C10-prepeptide-location-parts has the same bases in the same order -/
+theorem merge_adjoining_same_bases (l : Loc) (hv : ∀ p ∈ l.parts, p.lo ≤ p.hi) :
+    ProtDna.bases (mergeAdjoining l) = ProtDna.bases l :=
+  mergeAdjoining_bases l hv
+
+/-- an origin-spanning gene on a circular record of 120 bases -/
+def spanGene : Loc := .compound [⟨105, 120, .fwd⟩, ⟨0, 15, .fwd⟩]
+def spanGeneRev : Loc := .compound [⟨0, 15, .rev⟩, ⟨105, 120, .rev⟩]
+
+example : ProtDna.geneWF spanGene = true ∧ ProtDna.geneWF spanGeneRev = true := by decide
+/-- non-vacuity, and more than the theorem says: here the location itself comes back, on both strands -/
+example : (match preWrite spanGene 3 3 with | .ok w => preRead w | _ => none) = some spanGene := by rfl
+example : (match preWrite spanGeneRev 2 4 with | .ok w => preRead w | _ => none) = some spanGeneRev := by rfl
+example : (match preWrite (.simple ⟨30, 60, .rev⟩) 3 3 with | .ok w => preRead w | _ => none)
+    = some (.simple ⟨30, 60, .rev⟩) := by rfl
+
+/-- the seeded change "combine the sections in coordinate order" is refuted by the theorem: for the
+    origin-spanning gene the section after the origin sorts first and the bases come out in another order -/
+theorem sections_in_coordinate_order_break_it :
+    ProtDna.bases (combineSections [.simple ⟨6, 15, .fwd⟩, .simple ⟨105, 114, .fwd⟩,
+                                    .compound [⟨114, 120, .fwd⟩, ⟨0, 6, .fwd⟩]])
+      ≠ ProtDna.bases spanGene ∧
+    ProtDna.bases (combineSections [.simple ⟨105, 114, .fwd⟩, .compound [⟨114, 120, .fwd⟩, ⟨0, 6, .fwd⟩],
+                                    .simple ⟨6, 15, .fwd⟩])
+      = ProtDna.bases spanGene := by
+  constructor
+  · decide
+  · decide
+
+/-! ### the text inside the class-specific qualifiers (`ASV/Model/SerialQual.lean`) -/
+
+/-- `_parse_format(fmt, fmt.format(*values)) == values`: the backtracking match of the expression built
+    from the format string returns exactly the values that were formatted, for every format made of
+    `{}` place holders and literal characters and all values that fit it (`fitsFormat`: non-empty, no
+    newline, and free of the character — and of a space, if the format has one there — that follows
+    the place holder in the format).  Values that do not fit can come back split elsewhere
+    (`gene_function_colon_breaks_it`). -/
+theorem parse_format_inverts_format (ts : List Tok) (values : Groups) (h : fitsFormat ts values = true) :
+    rx ts (render ts values) = some values :=
+  rx_render ts values h
+
+/-- the format strings of the code give the item lists used in the model -/
+example : fmtToks "{} ({}) {}: {}".toList = some fmt4 ∧ fmtToks "{} ({}) {}".toList = some fmt3 ∧
+    fmtToks "{} (E-value: {}, bitscore: {}, seeds: {}, tool: {})".toList = some smFmt := by decide +kernel
+
+/-- `_GeneFunctionAnnotation.from_string(str(a)) == a` for every annotation object (`Annot.wf`: what the
+    constructor checks) whose tool has no `)`, whose texts have no newline and whose product has no `:`
+    — or, without product, whose tool and description have no `:` (`Annot.textSafe`).
+    Partial: a description with a colon and no product is outside (known finding KF-C10-gene-function-colon). -/
+theorem gene_function_text_roundtrip_partial (a : Annot) (hw : a.wf = true) (hs : a.textSafe = true) :
+    Annot.fromStr a.toStr = .ok a :=
+  annot_text_roundtrip a hw hs
+
+/-- the `gene_functions` qualifier of a CDS: `add_from_qualifier` on the written strings rebuilds the same
+    annotations in the same order (annotations are distinct: `add` never stores a duplicate), hence the
+    same `gene_kind` and the same second write -/
+theorem gene_functions_qualifier_roundtrip_partial (l : List Annot) (hd : l.Nodup)
+    (h : ∀ a ∈ l, a.wf = true ∧ a.textSafe = true) :
+    annFromQualifier [] ((Q.get? (annQuals l) "gene_functions").getD []) = .ok l := by
+  cases l with
+  | nil => rfl
+  | cons a l =>
+    have := annFromQualifier_roundtrip (a :: l) [] h (by simpa using hd)
+    simpa [annQuals, Q.get?] using this
+
+def smcogAnnotation : Annot := ⟨.other, "smcogs", "SMCOG1000: thing", none⟩
+/-- the theorem's colon hypothesis cannot be dropped, on the model as in the code (KF-C10-gene-function-colon):
+    an smCOG style description comes back as a product and a shorter description -/
+theorem gene_function_colon_breaks_it :
+    smcogAnnotation.wf = true ∧
+    (Annot.fromStr smcogAnnotation.toStr).toOption = some ⟨.other, "smcogs", "thing", some "SMCOG1000"⟩ := by
+  decide +kernel
+
+/-- non-vacuity: with and without product -/
+example : (⟨.core, "rule-based-clusters", "biosynthetic (rule-based-clusters) T1PKS: PKS_KS", some "T1PKS"⟩ : Annot).wf = true ∧
+    (⟨.core, "rule-based-clusters", "biosynthetic (rule-based-clusters) T1PKS: PKS_KS", some "T1PKS"⟩ : Annot).textSafe = true ∧
+    (⟨.transport, "smcogs", "ABC transporter (Score 12.5)", none⟩ : Annot).wf = true ∧
+    (⟨.transport, "smcogs", "ABC transporter (Score 12.5)", none⟩ : Annot).textSafe = true := by decide +kernel
+
+/-- `SecMetQualifier.Domain.from_string(str(d)) == d` (numbers as the text Python writes for them) when the
+    name has neither space nor `(`, the numbers' texts no `,`, the tool no `)` -/
+theorem secmet_domain_text_roundtrip_partial (d : SMDom) (h : d.textSafe = true) : SMDom.fromStr d.toStr = .ok d :=
+  smdom_text_roundtrip d h
+
+/-- the `sec_met_domain` qualifier: domains with distinct names (`add_domains` keeps the first of each name) -/
+theorem secmet_qualifier_roundtrip_partial (ds : List SMDom) (hn : (ds.map (·.name)).Nodup)
+    (h : ∀ d ∈ ds, d.textSafe = true) : smFromQualifier (ds.map SMDom.toStr) = .ok ds := by
+  unfold smFromQualifier
+  rw [smParseAll_roundtrip ds h]
+  simp only [bind, Except.bind, pure, Except.pure]
+  rw [smAdd_distinct ds [] (by simpa using hn)]
+  simp
+
+example : (⟨"PKS_KS", "1.5e-20", "12.5", "25", "rule-based-clusters"⟩ : SMDom).textSafe = true := by decide +kernel
+
+/-! ### domains and motifs (`AntismashFeature` → `Domain` → `AntismashDomain` / `CDSMotif`) -/
+
+/-- an `aSDomain` (no registered subtype) or `CDS_motif` feature made by antiSMASH: the written feature is
+    read back with the same tool, locus tag, protein location, domain name, active-site hits, domain id,
+    database, detection, label, e-value and score texts and translation; the base part (location, notes,
+    free qualifiers) has the same view; the re-read object satisfies the hypotheses again and writes the
+    very same Biopython feature.  `Dom.WF`: what the constructors and setters guarantee, no `codon_start`,
+    and free qualifiers that use none of the thirteen keys the classes write. -/
+theorem bio_roundtrip_domain (t : Bool) (kind : DomKind) (d : Dom) (h : d.WF kind) (b : Bio) (hb : d.toBio = .ok b) :
+    ∃ d', Dom.fromBio kind b = .ok d' ∧ d' = { d with feat := d'.feat } ∧ d'.feat.view t = d.feat.view t ∧
+      d'.feat.loc = d.feat.loc ∧ d'.WF kind ∧ d'.toBio = .ok b :=
+  dom_roundtrip t kind d h b hb
+
+/-- a domain with every optional attribute set, notes and a free qualifier -/
+def sampleDomain : Dom :=
+  { feat := ⟨.simple ⟨30, 90, .rev⟩, "aSDomain", ["a note"], [("custom", ["x", "y"])], true, none⟩,
+    tool := "nrps_pks_domains", locusTag := "ctg1_5", pStart := 10, pEnd := 30, domain := some "PKS_KS",
+    asf := ["hit 1", "hit 2"], domainId := some "nrpspksdomains_ctg1_5_PKS_KS.1", database := some "nrpspksdomains.hmm",
+    detection := some "hmmscan", label := some "ctg1_5_KS1", evalue := some "1.50E-20", score := some "12.5",
+    translation := "MAGIC" }
+
+/-- non-vacuity: the hypotheses hold for it (`domWFb`, the Boolean form the driver reports as scope, implies
+    `Dom.WF`), it is written, and it comes back attribute by attribute -/
+theorem sampleDomain_in_scope : sampleDomain.WF .asDomain := Dom.WF_of_b _ _ (by decide +kernel)
+example : domWFb .asDomain sampleDomain = true ∧
+    (match sampleDomain.toBio with
+     | .ok b => (match Dom.fromBio .asDomain b with | .ok d' => d' == { sampleDomain with feat := d'.feat } | _ => false)
+     | _ => false) = true := by decide +kernel
 
 end ASV.C10
